@@ -44,6 +44,7 @@ func dataBlocks(a *Asm, m *modelNames) map[string][]string {
 func layoutClauses(f *File, out string, tag string) *Violation {
 	m := collectNames(f)
 	a := ParseAsm(out)
+	m.noteOutput(a)
 	referenced := map[string]bool{}
 	for _, l := range a.Lines {
 		for _, tg := range jumpTargets(l) {
@@ -96,6 +97,8 @@ func checkC05(c *FileCase) *Violation {
 	}
 	m := collectNames(c.File)
 	a0, a1 := ParseAsm(outs[0]), ParseAsm(outs[1])
+	m.noteOutput(a0)
+	m.noteOutput(a1)
 	detail := func(s string) string {
 		return fmt.Sprintf("%s\n--- source\n%s--- unoptimized\n%s--- optimized\n%s", s, src, outs[0], outs[1])
 	}
